@@ -569,6 +569,8 @@ def f(c):
     d = c.cat.remove_unused_categories().cat.categories
     e = c.value_counts()
     e = e[e > 0]
+    v = c.to_numpy()
+    v = v[np.isfinite(v)]
 '''
 
 
@@ -598,13 +600,15 @@ def declared_level_sites(fnode):
             if bound and bound in zero_filtered:
                 continue
             out.append((x, '%s (lists declared categories with a count of zero)' % norm(x)[:50]))
+        if isinstance(x, ast.Call) and norm(x.func).split('.')[-1] == 'isfinite':
+            out.append((x, '%s as a null filter (drops +/-inf, which are values a column holds, along with NaN)' % norm(x)[:50]))
     return out
 
 
 def observed_rule(run, rid, p, funcs, text):
     run.rule(rid, text)
     pos = declared_level_sites(ast.parse(DECLARED_POSITIVE).body[0])
-    if len(pos) != 2:
+    if len(pos) != 3:
         raise AnalysisErrorCommon('observed-values rule no longer matches its embedded example (%d sites)' % len(pos))
     n = 0
     for f in funcs:
